@@ -154,6 +154,10 @@ VPart ==
     /\ Ln.out = <<>>
     /\ UNCHANGED <<cfg, parents, idx, closed, finished, out, implvars>>
 
+(* Dropped{src, k, evidence}: the driver found message k of parent src taken off *)
+(* its edge, nothing in flight anywhere, and the node never handed it (driver:    *)
+(* dropped.go).  NO action accepts that line: every parent message - an empty     *)
+(* batch too, it takes its parent's slot (JURef) - reaches the node exactly once. *)
 VNext == VReset \/ VDeliver \/ VClose \/ VSleep \/ VPart \/ VFinish
 VSpec == TrInit /\ [][VNext]_tvars
 
